@@ -275,11 +275,11 @@ def tasks(tier, seed):
   for strat in ("fb", "tau", "ff"):
     T.append(("h_comb", {"strategy": strat, "D": 3 if not big else 5, "N": 5 if not big else 8, "inf": True}))
   T.append(("h_gammatone", {"strategy": "klapuri"}))
-  if big: T.append(("h_gammatone", {"strategy": "slaney"}, {"optional": True}))
+  if big: T.append(("h_gammatone", {"strategy": "slaney"}, {"optional": True, "task_s": 900}))
   # sampled eta=1: its Jury obligation takes ~20 s of nlsat here and went over a 30 s cap on a loaded machine:
   # attempted (optional) in the quick tier, claimed in the thorough tier with a 150 s cap
   T.append(("h_gammatone", {"strategy": "sampled", "eta": 1}, {"optional": not big, "query_s": 150}))
   if big:
-    T.append(("h_gammatone", {"strategy": "sampled", "eta": 2}, {"optional": True}))
-    T.append(("h_gammatone", {"strategy": "sampled", "eta": 3}, {"optional": True}))
+    T.append(("h_gammatone", {"strategy": "sampled", "eta": 2}, {"optional": True, "task_s": 900}))
+    T.append(("h_gammatone", {"strategy": "sampled", "eta": 3}, {"optional": True, "task_s": 900}))
   return T
